@@ -95,22 +95,44 @@ def install():
 
 # ------------------------------------------------------------------------------------------ driver
 _FORM = 0
+_DISTRACTOR = None  # (chart, instrument, difficulty, a tick beyond its last tempo change)
+
+
+def make_distractor():
+    """a second chart that stays alive for the whole shard: 48 tempo changes, a few notes far into the map"""
+    global _DISTRACTOR
+    tempos = [[96 * k, gen.usable_n(90000 + 1500 * k)] for k in range(48)]
+    last = tempos[-1][0]
+    groups = [{"tick": last + 96 * (k + 1), "lanes": {str(k % 5): 0}, "open": None, "forced": False, "tap": False} for k in range(6)]
+    truth = {"resolution": 96, "tempos": tempos, "timesigs": [[0, 4, None]], "tracks": {"BASS/HARD": {"groups": groups, "phrases": []}}}
+    out = harness.parse(gen.render_truth(truth)["text"])
+    if out.ok:
+        _DISTRACTOR = (out.chart, harness.Instrument.BASS, harness.Difficulty.HARD, last + 96)
 
 
 def call(rec, chart, text, inst, diff, args, label):
+    global _FORM
     I, D = harness.Instrument, harness.Difficulty
     i, d = I[inst], D[diff]
     start = args[0] if len(args) > 0 else None
     end = args[1] if len(args) > 1 else None
-    exp = expected_value(chart, i, d, start, end)
     case = {"text": text, "instrument": inst, "difficulty": diff,
             "args": [a if a is None or isinstance(a, int) else {"us": us(a)} for a in args]}
     rec.ev()
     contracts.drain("C16")
+    # an application holds several charts: in half of the calls ANOTHER chart (long tempo map) answers a tick-bounded question far
+    # into its map immediately before — and the expectation for this call is computed only AFTER it, so that no query of the
+    # oracle's own comes between the two (the oracle's queries used to "warm up" the chart under test before every call)
+    if _DISTRACTOR is not None and _FORM % 2:
+        dch, di, dd, dt = _DISTRACTOR
+        try:
+            dch.notes_per_second(di, dd, dt, dt + 1000)
+        except ValueError:
+            pass
+        rec.cls("asked_right_after_a_tick_bounded_query_on_another_chart")
     try:
         # the documented call forms rotate: positional, bounds by keyword (an omitted start is then really omitted, not None),
         # everything by keyword
-        global _FORM
         _FORM += 1
         kw = {k: v for k, v in (("start", start), ("end", end)) if v is not None}
         if _FORM % 3 == 1:
@@ -126,6 +148,8 @@ def call(rec, chart, text, inst, diff, args, label):
     except Exception as e:  # noqa
         got, exc = None, e
     br = contracts.drain("C16")
+    exp = expected_value(chart, i, d, start, end)
+    contracts.drain("C16")
     if br:
         rec.violation("contract", br[0]["message"], case, "value!=count/length")
         return None
@@ -238,6 +262,7 @@ def drive(rec, rng, case):
 def run_shard(shard, rec, tier, seed):
     harness.setup()
     install()
+    make_distractor()
     for i in range(shard["count"]):
         rng = harness.rng_for(seed, ID, shard["name"], i)
         case = gen.gen_chart(rng, "hostile" if i % 3 == 0 else "realistic", n_tracks=rng.choice([1, 2, 3]),
@@ -274,6 +299,7 @@ def run_shard(shard, rec, tier, seed):
 def replay(case, rec):
     harness.setup()
     install()
+    make_distractor()
     out = harness.parse(case["text"])
     if not out.ok:
         return
